@@ -73,6 +73,8 @@ func behave(mode, rid string) (interface{}, *erpc.Status) {
 		nilMap["x"] = 1
 	case "slow":
 		time.Sleep(300 * time.Microsecond)
+	case "slow-beyond-age":
+		time.Sleep(150 * time.Millisecond) // far beyond the context age of the "aged" server (20 ms)
 	case "badresult":
 		return &unmarshalable{C: make(chan int)}, nil
 	case "bigresult":
@@ -245,8 +247,13 @@ func main() {
 		routes map[string]string
 	}
 	servers := map[bool]*server{}
-	for _, unk := range []bool{false, true} {
-		p := erpc.NewPeer(erpc.PeerConfig{}, vetoPlugin{})
+	var aged *server
+	for _, unk := range []bool{false, true, false} {
+		cfg := erpc.PeerConfig{}
+		if len(servers) == 2 {
+			cfg.DefaultContextAge = 20 * time.Millisecond // third server: calls and replies carry a context age
+		}
+		p := erpc.NewPeer(cfg, vetoPlugin{})
 		sv := &server{peer: p, routes: map[string]string{}}
 		sv.routes["call"] = p.RouteCallFunc(HCall)
 		sv.routes["typed"] = p.RouteCallFunc(HTyped)
@@ -262,7 +269,11 @@ func main() {
 				return nil
 			})
 		}
-		servers[unk] = sv
+		if len(servers) == 2 {
+			aged = sv
+		} else {
+			servers[unk] = sv
+		}
 	}
 
 	for si := 0; si < nScripts; si++ {
@@ -273,10 +284,18 @@ func main() {
 		p := protos.ByName(protoNames[si%len(protoNames)])
 		unk := r.Intn(2) == 0
 		sv := servers[unk]
+		agedScript := si%10 == 9
+		if agedScript {
+			sv, unk = aged, false
+		}
 		sc := script{Proto: p.Name, Unknown: unk, Delivery: []string{"one-write", "per-frame", "chunks"}[r.Intn(3)], Conns: []int{1, 1, 2, 8}[r.Intn(4)], EndType: -1, Class: "script"}
 		n := []int{1, 3, 8, 20, 64}[r.Intn(5)]
 		id := fmt.Sprintf("s%05d", si)
-		if p.AnyMtype && r.Intn(4) == 0 {
+		if agedScript {
+			sc.Class = "script-context-age"
+			n = []int{1, 3, 8}[r.Intn(3)]
+		}
+		if p.AnyMtype && r.Intn(4) == 0 && !agedScript {
 			sc.EndType = []int{0, 4, 5, 6, 7, 9, 100, 255}[r.Intn(8)]
 			sc.Class = "script-unsupported-type"
 		}
@@ -296,6 +315,8 @@ func main() {
 			for k := 0; k < n; k++ {
 				var kind string
 				switch x := r.Intn(10); {
+				case agedScript && x < 4:
+					kind = "call-slow-beyond-age"
 				case x < 7:
 					kind = callKinds[r.Intn(len(callKinds))]
 				case x < 9:
@@ -379,21 +400,24 @@ func main() {
 			}
 			continue
 		}
-		type viol struct{ sym, kind, what string }
+		type viol struct {
+			sym, kind, what string
+			ci              int
+		}
 		var viols []viol
 		sigs := map[string]bool{}
 		for _, cr := range runs {
 			got, eof := cr.conn.Received()
 			replies, perr := rawpeer.Parse(p, got)
 			if perr != nil {
-				viols = append(viols, viol{"garbled-output", "-", fmt.Sprintf("conn %d: bytes written by the peer do not parse as frames: %v", cr.ci, perr)})
+				viols = append(viols, viol{"garbled-output", "-", fmt.Sprintf("conn %d: bytes written by the peer do not parse as frames: %v", cr.ci, perr), cr.ci})
 			}
 			pending := cr.conn.C.Pending()
 			_ = pending
 			bySeq := map[int32]int{}
 			for _, rp := range replies {
 				if rp.Mtype != erpc.TypeReply {
-					viols = append(viols, viol{"non-reply-frame", "-", fmt.Sprintf("conn %d: peer wrote a frame of type %d seq %d", cr.ci, rp.Mtype, rp.Seq)})
+					viols = append(viols, viol{"non-reply-frame", "-", fmt.Sprintf("conn %d: peer wrote a frame of type %d seq %d", cr.ci, rp.Mtype, rp.Seq), cr.ci})
 					continue
 				}
 				bySeq[rp.Seq]++
@@ -406,22 +430,22 @@ func main() {
 				ninv := invocations(f.Rid)
 				if f.Mtype == erpc.TypeCall {
 					if nrep > 1 {
-						viols = append(viols, viol{"answered-twice", f.Kind, fmt.Sprintf("conn %d seq %d (%s): %d REPLY frames", cr.ci, f.spec.Seq, f.Kind, nrep)})
+						viols = append(viols, viol{"answered-twice", f.Kind, fmt.Sprintf("conn %d seq %d (%s): %d REPLY frames", cr.ci, f.spec.Seq, f.Kind, nrep), cr.ci})
 					}
 					if nrep == 0 && !eof && consumedAll {
-						viols = append(viols, viol{"never-answered", f.Kind, fmt.Sprintf("conn %d seq %d (%s): no REPLY although the connection stayed up and the process is quiescent", cr.ci, f.spec.Seq, f.Kind)})
+						viols = append(viols, viol{"never-answered", f.Kind, fmt.Sprintf("conn %d seq %d (%s): no REPLY although the connection stayed up and the process is quiescent", cr.ci, f.spec.Seq, f.Kind), cr.ci})
 					}
 				} else if nrep > 0 && f.Mtype != erpc.TypeReply {
-					viols = append(viols, viol{"reply-to-non-call", f.Kind, fmt.Sprintf("conn %d seq %d (%s, type %d): %d REPLY frames", cr.ci, f.spec.Seq, f.Kind, f.Mtype, nrep)})
+					viols = append(viols, viol{"reply-to-non-call", f.Kind, fmt.Sprintf("conn %d seq %d (%s, type %d): %d REPLY frames", cr.ci, f.spec.Seq, f.Kind, f.Mtype, nrep), cr.ci})
 				}
 				if ninv > 1 {
-					viols = append(viols, viol{"handled-twice", f.Kind, fmt.Sprintf("conn %d request %s (%s): %d handler invocations", cr.ci, f.Rid, f.Kind, ninv)})
+					viols = append(viols, viol{"handled-twice", f.Kind, fmt.Sprintf("conn %d request %s (%s): %d handler invocations", cr.ci, f.Rid, f.Kind, ninv), cr.ci})
 				}
 				if strings.Contains(f.Kind, "veto") && ninv > 0 {
-					viols = append(viols, viol{"veto-handler-ran", f.Kind, fmt.Sprintf("conn %d request %s: handler ran after %s", cr.ci, f.Rid, f.Kind)})
+					viols = append(viols, viol{"veto-handler-ran", f.Kind, fmt.Sprintf("conn %d request %s: handler ran after %s", cr.ci, f.Rid, f.Kind), cr.ci})
 				}
 				if strings.HasPrefix(f.Kind, "mtype-") && !eof {
-					viols = append(viols, viol{"unsupported-type-not-disconnected", "mtype", fmt.Sprintf("conn %d: frame of type %d was not answered by disconnecting", cr.ci, f.Mtype)})
+					viols = append(viols, viol{"unsupported-type-not-disconnected", "mtype", fmt.Sprintf("conn %d: frame of type %d was not answered by disconnecting", cr.ci, f.Mtype), cr.ci})
 				}
 			}
 			if eof {
@@ -452,7 +476,7 @@ func main() {
 				rid = fmt.Sprintf("%s#%d", id, i)
 				core.Begin(rid, nil)
 			}
-			sc.Frames = runs[0].frames
+			sc.Frames = runs[groups[k][0].ci].frames
 			core.Result(core.R{ID: rid, Verdict: core.Violated, FP: fmt.Sprintf("C03/%s/%s", p.Name, k), What: groups[k][0].what,
 				Witness: map[string]interface{}{"count": len(groups[k]), "first": groups[k][0].what}, Desc: sc})
 		}
